@@ -7,6 +7,7 @@ import CantoVerif.Driver.Ante
 import CantoVerif.Driver.Signers
 import CantoVerif.Driver.Genesis
 import CantoVerif.Driver.Replica
+import CantoVerif.Driver.Csr
 /-! Line-protocol driver: `lake env lean --run Main.lean <suite> < trace` -/
 def main (args : List String) : IO UInt32 := do
   match args with
@@ -19,4 +20,5 @@ def main (args : List String) : IO UInt32 := do
   | ["signers"] => CV.Drv.Signers.main; return 0
   | ["genesis"] => CV.Drv.Genesis.main; return 0
   | ["replica"] => CV.Drv.Replica.main; return 0
+  | ["csr"] => CV.Drv.Csr.main; return 0
   | _ => IO.eprintln "usage: Main <suite>"; return 2
